@@ -450,7 +450,19 @@ int64_t cmb_process_wait_process(struct cmb_process *awaited)
         /* Yield to the dispatcher and collect the return signal value */
         const int64_t sig = (int64_t)cmi_coroutine_yield(NULL);
 
-        /* Possibly much later */
+        /*
+         * Possibly much later. If something else than the end of the awaited
+         * process woke us (e.g., a timer), our registrations are still in
+         * place. Withdraw them, or they would resume us at some later time.
+         */
+        if (cmi_process_remove_awaitable(me, CMI_PROCESS_AWAITABLE_PROCESS, awaited)) {
+            if (!cmi_slist_is_empty(&(awaited->waiters))) {
+                (void)cmi_process_remove_waiter(awaited, me);
+            }
+
+            (void)cmb_event_pattern_cancel(wakeup_event_process, me, CMB_ANY_OBJECT);
+        }
+
         return sig;
     }
 }
@@ -482,7 +494,14 @@ int64_t cmb_process_wait_event(const uint64_t ev_handle)
     /* Yield to the dispatcher and collect the return signal value */
     const int64_t ret = (int64_t)cmi_coroutine_yield(NULL);
 
-    /* Possibly much later */
+    /*
+     * Possibly much later. If something else than the event woke us (e.g., a
+     * timer), withdraw our registrations to not be resumed by it later.
+     */
+    if (cmi_process_remove_awaitable(me, CMI_PROCESS_AWAITABLE_EVENT, (void *)ev_handle)) {
+        (void)cmi_event_remove_waiter(ev_handle, me);
+    }
+
     return ret;
 }
 
